@@ -20,6 +20,7 @@ const pkgPGPatcher = "pkg/podgroupcontroller/controllers/patcher"
 const pkgQueueRes = "pkg/queuecontroller/controllers/resource_updater"
 
 func runC20(c *Ctx) {
+	runC20BothSums(c)
 	runC20DesiredOnLive(c)
 	runC20ErrDrop(c)
 	runC20Inherit(c)
@@ -901,4 +902,34 @@ func runC20Inherit(c *Ctx) {
 		}
 	}
 	c.Floor("O13", "SIBLING operand assignments of inherited fields", n, 1)
+}
+
+// runC20BothSums (O14): a queue's status is the sum over its child queues AND over the pod groups attached to it,
+// for every queue of the tree — a middle queue has both. Every error-free path through ResourceUpdater.UpdateQueue
+// runs both sums; a sum that is skipped for some queues (only for top-level ones, only when a list is non-empty)
+// leaves that level's contribution out, and the loss propagates to every ancestor.
+func runC20BothSums(c *Ctx) {
+	f := c.Anchor("O14", "pkg/queuecontroller/controllers/resource_updater", "ResourceUpdater", "UpdateQueue")
+	if f == nil {
+		return
+	}
+	errEdge := func(from, to *ssa.BasicBlock) bool {
+		return !c.Fx.edgeEstablishes(from, to, func(ft Fact) bool {
+			return ft.T.Op == "bin" && len(ft.T.Args) == 2 && ft.T.Args[1].isNilConst() && ft.T.Args[0].V != nil && types.Identical(ft.T.Args[0].V.Type(), errorType) &&
+				((ft.T.Name == "!=" && ft.Pol) || (ft.T.Name == "==" && !ft.Pol))
+		})
+	}
+	n := 0
+	for _, name := range []string{"sumChildQueueResources", "sumPodGroupsResources"} {
+		g := c.P.Func("pkg/queuecontroller/controllers/resource_updater", "ResourceUpdater", name)
+		if g == nil {
+			c.Undec("O14", "ANCHOR", name, 0, "not found")
+			continue
+		}
+		n++
+		_, path, found := reachAvoiding([]cfgPos{entryPos(f)}, isReturn, isCallToFn(g), errEdge)
+		c.Check(!found, "O14", "MPT", funcKey(f)+": "+name+" runs for every queue", f.Pos(), "on every error-free path",
+			name+" is skipped on some path ("+pathStr(path)+"): a queue that has both a parent and children (or both children and own pod groups) reports only part of what is below it, and so does every ancestor")
+	}
+	c.Floor("O14", "MPT sums of UpdateQueue", n, 2)
 }
